@@ -352,6 +352,10 @@ func allHandlers(p *load.Program) (fns []*ssa.Function, byAccept map[*ssa.Functi
 }
 
 func checkC14(p *load.Program, r *kit.Report) {
+	r.Rule("SEND-FRESH", "no handler queues a field of the node as a message: the sender thread serialises it later", 3)
+	checkSendFresh(p, r, "SEND-FRESH")
+	r.Rule("DISCARD-REMAINDER", "discardBlock discards header.Length minus what the counting reader has seen", 1)
+	checkDiscardBlockRemainder(p, r, "DISCARD-REMAINDER")
 	r.Rule("HEADER-REFUSALS", "readHeader refuses a header only with the error of a read from the connection or with ErrWrongNetwork: command, length and checksum are data for the dispatcher", 5)
 	checkHeaderRefusals(p, r, "HEADER-REFUSALS")
 	r.NotDecided = "the pong itself (needs the send path to run), multi-MB payload timing; for count-prefixed item loops exactness relies on the protocol's own invariant that varint + count×item equals the declared length (conformant traffic, which is what the property grants)."
